@@ -224,28 +224,39 @@ class ContainersMixin:
                 parts.append(ip.deref(rv.items[j]))
             return self.concat(parts) if parts else S("")
         if name in ("binary_search", "binary_search_by_key", "binary_search_by"):
-            # specification-level model (std: any matching index may be returned; on a sorted slice
-            # Err carries the insertion point). We return the first match / the number of smaller elements;
-            # callers that depend on WHICH equal element is found are outside the model.
+            # the algorithm of core::slice::binary_search_by (Rust >= 1.82: fixed iteration count, no early exit), executed
+            # on the symbolic vector — on an UNSORTED slice it may miss an element that is present, exactly as the real one
             args = A()
-            seq = self.vec_seq(rv)
-            found = False
-            pos = None
-            less = I(0, "usize")
-            for j, (p, it) in reversed(list(enumerate(seq))):
+            key = ip.deref(args[0]) if name != "binary_search_by" else None
+
+            def cmp_at(idx):
+                it = ip.deref(self.vec_get(rv, I(idx, "usize"), check=False))
                 if name == "binary_search":
-                    o = ip.cmp(it, ip.deref(args[0]))
-                elif name == "binary_search_by_key":
-                    o = ip.cmp(ip.call_value(args[1], [it]), ip.deref(args[0]))
-                else:
-                    o = ip.deref(ip.call_value(args[0], [it]))
-                hit = band(p, ip.tag_eq(o, 1))
-                pos = I(j, "usize") if pos is None else ite(hit, I(j, "usize"), pos)
-                found = bor(found, hit)
-                less = ite(band(p, ip.tag_eq(o, 0)), self.binop("Add", less, I(1, "usize")), less)
-            if pos is None:
+                    return ip.cmp(it, key)
+                if name == "binary_search_by_key":
+                    return ip.cmp(ip.call_value(args[1], [it]), key)
+                return ip.deref(ip.call_value(args[0], [it]))
+            n = rv.n if not isinstance(rv.n, int) else z3.IntVal(rv.n)
+            cap = len(rv.items)
+            if cap == 0:
                 return err(I(0, "usize"))
-            return En("Result", ite(found, I(0), I(1)).v, {0: [pos], 1: [less]})
+            size, base = n, z3.IntVal(0)
+            rounds = max(1, cap).bit_length() + 1
+            for _ in range(rounds):
+                live = size > 1
+                half = size / 2
+                mid = base + half
+                with ip.under(band(n > 0, live)):
+                    o = cmp_at(mid)
+                greater = ip.tag_eq(o, 2)
+                base = z3.If(zbool(live), z3.If(zbool(greater), base, mid), base)
+                size = z3.If(zbool(live), size - half, size)
+            with ip.under(n > 0):
+                o = cmp_at(base)
+            eqv, less = ip.tag_eq(o, 1), ip.tag_eq(o, 0)
+            res = En("Result", ite(band(n > 0, eqv), I(0), I(1)).v,
+                     {0: [I(z3.simplify(base), "usize")], 1: [I(z3.simplify(z3.If(n > 0, base + z3.If(zbool(less), 1, 0), 0)), "usize")]})
+            return res
         if name == "dedup":
             raise Unsupported("Vec::dedup")
         if name == "swap":
